@@ -447,6 +447,9 @@ func genGlyf(t *rapid.T, n int, o Opts, c *Case, fl *filler) *glyf.Outlines {
 		for _, nm := range []string{"cvt ", "fpgm", "prep", "gasp"} {
 			if rapid.Bool().Draw(t, "tbl") {
 				out.Tables[nm] = rapid.SliceOfN(rapid.Byte(), 1, 9).Draw(t, "tblData")
+			} else if rapid.IntRange(0, 3).Draw(t, "emptyTbl") == 0 {
+				out.Tables[nm] = []byte{} // written with length 0, dropped on read
+				c.label("tt-empty-extra-table")
 			}
 		}
 		c.label("tt-extra-tables")
@@ -742,6 +745,21 @@ func genCmap(t *rapid.T, n int, o Opts, noLiga bool, c *Case, fl *filler) (cmap.
 		}
 		c.label("cmap-format4")
 	}
+	if rapid.IntRange(0, 5).Draw(t, "macKeys") == 0 {
+		// Macintosh subtables for one or two languages (same platform and
+		// encoding, different language field)
+		mac := cmap.Format4{}
+		for r, g := range m {
+			if r < 0x80 {
+				mac[uint16(r)] = g
+			}
+		}
+		langs := rapid.SampledFrom([][]uint16{{0}, {0, 2}, {5, 1}, {0, 1, 2}}).Draw(t, "macLangs")
+		for _, l := range langs {
+			tbl[cmap.Key{PlatformID: 1, EncodingID: 0, Language: l}] = mac.Encode(l)
+		}
+		c.label(fmt.Sprintf("cmap-mac-%d", len(langs)))
+	}
 	return tbl, m
 }
 
@@ -882,6 +900,11 @@ func genGposLookup(t *rapid.T, n int, subsetOnly bool) *gtab.LookupTable {
 }
 
 func genInfo(t *rapid.T, n int, gsub, subsetOnly bool) *gtab.Info {
+	if !subsetOnly && rapid.IntRange(0, 11).Draw(t, "emptyInfo") == 0 {
+		// a table that is present but has no lookups (what gtab.Read returns
+		// for a header without lists)
+		return &gtab.Info{ScriptList: gtab.ScriptListInfo{}}
+	}
 	nl := rapid.IntRange(1, 3).Draw(t, "nLookups")
 	info := &gtab.Info{ScriptList: gtab.ScriptListInfo{}}
 	for i := 0; i < nl; i++ {
